@@ -743,8 +743,8 @@ def _run_atheris(case):
 
 def checks(tier):
     return [
-        Check("parse", _run_parse, strategy=_parse_case(), examples={"quick": 5000, "thorough": 16 * 50000}, shards={"quick": 4, "thorough": 16}),
-        Check("deliver", _run_deliver, strategy=_deliver_case(), examples={"quick": 3000, "thorough": 16 * 25000}, shards={"quick": 4, "thorough": 16}),
-        Check("raw", _run_raw, strategy=_raw_case(), examples={"quick": 3000, "thorough": 16 * 25000}, shards={"quick": 4, "thorough": 16}),
+        Check("parse", _run_parse, strategy=_parse_case(), examples={"quick": 5000, "thorough": 16 * 40000}, shards={"quick": 4, "thorough": 16}),
+        Check("deliver", _run_deliver, strategy=_deliver_case(), examples={"quick": 3000, "thorough": 16 * 20000}, shards={"quick": 4, "thorough": 16}),
+        Check("raw", _run_raw, strategy=_raw_case(), examples={"quick": 3000, "thorough": 16 * 20000}, shards={"quick": 4, "thorough": 16}),
         Check("atheris", _run_atheris, cases=_atheris_cases, shards={"quick": 1, "thorough": 16}),
     ]
